@@ -20,6 +20,7 @@ def run(c):
     r3(c)
     r4(c)
     r5(c)
+    r6(c)
 
 
 def r1(c):
@@ -145,6 +146,25 @@ def r2(c):
     c.check("C08.R2", ok, repo.loc(m, go[0] if go else mp), "make_patch/get_order-args", "get_order is not asked about this row with this command's direct flag", key_text="go-args")
     oc = repo.func(PATCHING, "Orderer.order_config")
     srt = [x for x in calls_in(oc) if call_name(x) == "sorted"]
+    # reversing a sorted sequence is not the descending stable sort: equal keys come out in the opposite of their input order
+    pvo = Provenance(oc)
+    flipped = []
+    for x in ast.walk(oc):
+        tgt = None
+        if isinstance(x, ast.Call) and call_name(x) == "reversed" and x.args:
+            tgt = x.args[0]
+        elif isinstance(x, ast.Subscript) and isinstance(x.slice, ast.Slice) and x.slice.lower is None and x.slice.upper is None and x.slice.step is not None and norm(x.slice.step) == "-1":
+            tgt = x.value
+        elif isinstance(x, ast.Call) and isinstance(x.func, ast.Attribute) and x.func.attr == "reverse" and not x.args:
+            tgt = x.func.value
+        if tgt is not None:
+            v = pvo.resolve_alias(tgt)
+            if (isinstance(v, ast.Call) and call_name(v) == "sorted") or any(call_name(o) == "sorted" for o in pvo.origin_calls(tgt, through_calls=False)):
+                flipped.append(x)
+    if flipped:
+        c.violated("C08.R2", repo.loc(m, flipped[0]), "order_config.key", f"`{norm(flipped[0])[:70]}` reverses a sorted sequence: rows with equal order (several lines matched by one rule, "
+                   "or by no rule) come out in the opposite of their configuration order — a stable sort with a negated key keeps them", key_text="reversed-sorted")
+        return
     keyf = kwarg(srt[0], "key") if srt else None
     body = arg = None
     if isinstance(keyf, ast.Lambda):
@@ -288,3 +308,12 @@ def r5(c):
         visit(t.rows, [])
         c.holds("C08.R5", t.rel, f"{t.rel.split('/')[-1]}", f"{len(t.all_rows())} rows" + (f"; informational: duplicate sibling rows at lines {dups}" if dups else ""))
     c.floor("C08.R5", ".order files", n, 11)
+
+
+def r6(c):
+    from rules import c07
+    c.rule("C08.R6", "the ordering compiler derives the negated form a rule is also matched by (reverse_regexp, which decides the order of removal commands) with both arms of the "
+                     "reverse-form rule: a row is negated only when it starts with <prefix> + blank, the strip arm removes exactly that, the other arm prepends it (rule C07.R2 "
+                     "applied to rbparser.ordering._compile_ordering)")
+    c07.ordering_reverse_site(c, "C08.R6")
+    c.count("functions")
